@@ -198,6 +198,16 @@ pub fn run_file(t: &Templates, seed: u64, inp: &str, outp: &str) {
             "open_pass" => open_pass(t, &scn),
             "unlock" => spec_unlock(t, &scn),
             "kenc_draws" => kenc_draws(t, seed, &scn),
+            "rand" => {
+                // the generator itself: requested lengths are honoured, 32-byte outputs are recorded as draws
+                let lens = [0usize, 1, 16, 31, 32, 33, 64, 1000, 65536];
+                let len_ok = lens.iter().all(|n| kestrel_crypto::secure_random(*n).len() == *n);
+                let big = kestrel_crypto::secure_random(4096);
+                let not_constant = big.iter().any(|b| *b != big[0]);
+                let a = kestrel_crypto::secure_random(32);
+                let g = kestrel_crypto::PrivateKey::generate();
+                json!({"ok": len_ok && not_constant && g.as_bytes().len() == 32, "random": hex(&a), "privkey": hex(g.as_bytes())})
+            }
             "clear" => clear(t, seed, &scn),
             "golden" => crate::golden::golden(t, &scn),
             "mkgolden" => crate::golden::mkgolden(&scn),
